@@ -1033,6 +1033,10 @@ def listener_session(seed):
                 s.op("lcraft 10 %s %d 0 -1 %d %d %d -1 -1 -1 %d" % (addr, c, rng.choice([0, 1, 2, 3, 4, 5, 6, 255]), rng.choice([0, 1, 2, 3, 4, 200]), rng.randint(0, 255), rng.randint(0, 31)))
         s.note("hostile")
         hostile_ops(s, rng, [c], [c, 10], listener=(10, addr), n=rng.randint(0, 3), magic_bits=magic[0])
+        if rng2.random() < 0.4:
+            # a server travel: the application changes GlobalNetTravelCount; from now on every reply carries the new session id,
+            # whatever traffic the listener has answered before
+            s.op("cfg travel %d" % rng2.randint(0, 9))
         if rng2.random() < 0.5:
             # a datagram in the CURRENT field layout that advertises another handshake version (older, newer, absurd): whatever the listener
             # makes of it, it must not change how later datagrams are read (the version variables are not per-listener state: a twin cannot see this,
@@ -1118,6 +1122,11 @@ def large_session(seed):
     for _ in range(rng.randint(1, 4)):
         k = rng.randint(0, 30)
         bits = rng.choice([0, 1, 7263, 7264, 7265, 7264 * k + rng.choice([-8, -7, -1, 0, 1, 7, 8, 7257, 7260, 7263]), rng.randint(0, 7264 * 30)])
+        if rng.random() < 0.2:
+            # up to the largest payload the layer accepts (its buffer holds 64 datagrams' worth: 92 927 bytes), around 64 KiB and around the end
+            bits = rng.choice([524280, 524287, 524288, 524289, 524296, 531552, 743408, 743415, 743416, 7264 * rng.randint(31, 102) + rng.choice([-1, 0, 1, 7263]),
+                               rng.randint(7264 * 30, 743416)])
+            bits = min(bits, 743416)
         bits = max(0, min(bits, 256 * 7264 - 1))
         rel = rng.choice([8, 8, 0])
         s.note("large %d" % bits)
